@@ -76,6 +76,47 @@ def run_join(case, res):
     res["sample"] = dict(case)
 
 
+def run_recompute(case, res):
+    """one GHE: its multi-height family is used (interpolated), the height window changes, compute_g_functions() runs again (real
+    pygfunction): the curve used afterwards must be the NEW family's"""
+    from ghedesigner.utilities import eskilson_log_times
+
+    coords = [(0.0, 0.0), (0.0, 6.0), (6.0, 0.0), (6.0, 6.0)]
+    h0 = case["heights0"]
+    ghe = ghe_factory.make_ghe(coords, H=h0[1], hvals=h0, months=12)
+    ghe.grab_g_function(ghe.B_spacing / float(ghe.bhe.b.H))
+    ghe.bhe.b.H = 0.5 * (h0[0] + h0[1])
+    ghe.grab_g_function(ghe.B_spacing / float(ghe.bhe.b.H))  # a genuine interpolation builds the table
+    lo, hi = case["window1"]
+    ghe.sim_params.min_height, ghe.sim_params.max_height = lo, hi
+    res["evals"] += 1
+    try:
+        ghe.compute_g_functions()
+    except Exception as e:  # noqa: BLE001
+        res["violations"].append(core.viol("compute_g_functions_raised", case, msg=f"{type(e).__name__}: {e}"))
+        return
+    mid = 0.5 * (lo + hi)
+    lt = eskilson_log_times()
+    for q in (lo, mid, hi):
+        ghe.bhe.b.H = q
+        try:
+            g, _ = ghe.grab_g_function(ghe.B_spacing / float(q))
+        except Exception as e:  # noqa: BLE001
+            res["violations"].append(core.viol("recomputed_family_not_used", dict(case, query=q), msg=f"after compute_g_functions() for [{lo},{hi}] the curve at the stored height {q} raises {type(e).__name__}: {e}", how="raises"))
+            continue
+        stored = ghe.gFunction.g_lts.get(q)
+        if stored is None:
+            res["violations"].append(core.viol("recomputed_family_not_used", dict(case, query=q), msg=f"after compute_g_functions() the family holds heights {list(ghe.gFunction.g_lts)} not {[lo, mid, hi]}", how="heights"))
+            break
+        tail = [float(v) for v in g.y[-27:]]
+        if [float(v) for v in g.x[-27:]] != lt or any(abs(a - b) > 1e-9 * max(1.0, abs(b)) for a, b in zip(tail, stored)):
+            res["violations"].append(core.viol("recomputed_family_not_used", dict(case, query=q), msg=f"after compute_g_functions() for [{lo},{hi}] the curve used at the stored height {q} m differs from the stored curve by up to "
+                                                                                                       f"{max(abs(a - b) for a, b in zip(tail, stored)):.4f}", how="values"))
+    res.outcome("recompute")
+    res["nontrivial"] += 1
+    res["sample"] = dict(case)
+
+
 def run_interp(case, res):
     from ghedesigner.gfunction import GFunction
     from ghedesigner.utilities import eskilson_log_times
@@ -184,7 +225,7 @@ def run_fls(case, res):
 
 def run_case(case):
     res = core.Result(evals=0)
-    {"join": run_join, "interp": run_interp, "radius": run_radius, "fls": run_fls}[case["family"]](case, res)
+    {"join": run_join, "interp": run_interp, "radius": run_radius, "fls": run_fls, "recompute": run_recompute}[case["family"]](case, res)
     return res
 
 
@@ -211,6 +252,10 @@ def main(run: core.Run, only=None):
             interps.append({"family": "interp", "heights": list(c), "order_g": sorted(range(r), key=lambda i: str(c[i])), "order_r": list(range(r))})
     run.drive(interps, family="interpolation")
     run.drive([{"family": "radius", "ratios": [0.5, 0.8, 1.0, 1.25, 2.0, 3.0]}], family="radius-correction")
+    rec = [{"family": "recompute", "heights0": [60.0, 97.5, 135.0], "window1": [80.0, 120.0]}, {"family": "recompute", "heights0": [60.0, 97.5, 135.0], "window1": [60.0, 135.0]}]
+    if not quick:
+        rec += [{"family": "recompute", "heights0": [40.0, 70.0, 100.0], "window1": [90.0, 150.0]}, {"family": "recompute", "heights0": [100.0, 150.0, 200.0], "window1": [50.0, 90.0]}]
+    run.drive(rec, family="recompute")
     nmax = 4 if quick else 6
     fields = [["rect", n, mm, 5.0] for n in range(1, nmax + 1) for mm in range(n, nmax + 1)]
     fields += [["L", 3, 3, 6.0], ["L", 5, 4, 5.0], ["U", 4, 3, 5.0]] + ([["L", 4, 6, 7.0], ["L", 6, 2, 4.0], ["U", 3, 5, 6.0], ["U", 5, 4, 5.0], ["U", 6, 6, 4.5]] if not quick else [])
@@ -230,5 +275,5 @@ def main(run: core.Run, only=None):
         bounds={"join_heights": [20, 30, 45, 60, 100, 200, 400], "stored_heights": hs, "rectangles_up_to": f"{nmax}x{nmax}", "fields": len(fields)},
         assumptions=["FLS tolerance relative to max(1,|g|): 1e-6 for one borehole, 1e-4 for fields (pygfunction's 'equivalent' solver groups boreholes)",
                      "scipy.integrate.quad is trusted for the reference integral"],
-        require_outcomes=("join_truncate", "join_concatenate", "fls_single", "fls_field", "radius"),
+        require_outcomes=("join_truncate", "join_concatenate", "fls_single", "fls_field", "radius", "recompute"),
     )
